@@ -133,6 +133,30 @@ fn run_child(check: &dyn Check, a: &Args, shard: usize, nshards: usize, dir: &Pa
         let lim = libc::rlimit { rlim_cur: 6 << 30, rlim_max: 6 << 30 };
         libc::setrlimit(libc::RLIMIT_AS, &lim);
     }
+    // watchdog for polls that never return (a busy loop inside a future of the subject)
+    {
+        let hang_path = dir.join(format!("shard-{}.hang", shard));
+        std::thread::spawn(move || {
+            use std::sync::atomic::Ordering;
+            let mut last = u64::MAX;
+            let mut same = 0u32;
+            loop {
+                std::thread::sleep(std::time::Duration::from_secs(1));
+                let hb = vlab::bus::dx::HEARTBEAT.load(Ordering::Relaxed);
+                if hb == last && vlab::bus::dx::IN_POLL.load(Ordering::SeqCst) {
+                    same += 1;
+                } else {
+                    same = 0;
+                }
+                last = hb;
+                if same >= 20 {
+                    let task = vlab::bus::dx::CURRENT_TASK.lock().map(|g| g.clone()).unwrap_or_default();
+                    let _ = std::fs::write(&hang_path, task.as_bytes());
+                    std::process::exit(97);
+                }
+            }
+        });
+    }
     let cur = std::fs::OpenOptions::new().create(true).write(true).open(dir.join(format!("shard-{}.cur", shard))).ok();
     while idx < total {
         if let Some(f) = &cur {
@@ -279,6 +303,14 @@ fn main() {
                     } else {
                         harness_errors.push(format!("shard {} died with signal {} outside an announced phase; stderr: {}", shard, sig, tail(&err)));
                     }
+                } else if st.code() == Some(97) {
+                    let task = std::fs::read_to_string(tmp.join(format!("shard-{}.hang", shard))).unwrap_or_default();
+                    let cur_case = std::fs::read(tmp.join(format!("shard-{}.cur", shard))).ok().filter(|b| b.len() == 8).map(|b| u64::from_le_bytes(b[..8].try_into().unwrap()));
+                    merged.violation(
+                        format!("poll-never-returns:{}", task.trim_end_matches(char::is_numeric)),
+                        format!("a single poll of task `{}` did not return within 20 s (busy loop inside the future, it never yields) while running case {:?}", task, cur_case),
+                        json!({"property": a.id, "seed": a.seed, "case": cur_case, "tier": a.tier.name(), "task": task}),
+                    );
                 } else {
                     harness_errors.push(format!("shard {} exited with {:?}; stderr: {}", shard, st.code(), tail(&err)));
                 }
